@@ -77,3 +77,137 @@ theorem monthEndOf_lt_firstOf {M N : Int} (h : M < N) : monthEndOf M < firstOf N
 
 
 end Bermuda
+
+namespace Bermuda.Units
+open Bermuda Bermuda.Spec.C18 Std
+
+theorem date_le_iff_not_lt (a b : Date) : a ≤ b ↔ ¬ b < a := by
+  show Date.cmp a b ≠ .gt ↔ ¬ Date.cmp b a = .lt
+  rw [OrientedCmp.eq_swap (cmp := Date.cmp) (a := b) (b := a)]
+  cases Date.cmp a b <;> simp
+
+theorem date_le_of_lt {a b : Date} (h : a < b) : a ≤ b := by
+  rw [date_le_iff_not_lt]; exact Date.lt_asymm_agg h
+
+theorem date_lt_of_lt_of_le {a b c : Date} (h1 : a < b) (h2 : b ≤ c) : a < c := by
+  rw [date_le_iff_not_lt] at h2; exact Date.lt_of_lt_of_not_lt_agg h1 h2
+
+theorem date_le_trans {a b c : Date} (h1 : a ≤ b) (h2 : b ≤ c) : a ≤ c := by
+  rw [date_le_iff_not_lt] at *
+  intro h
+  rw [Date.lt_iff_agg] at *
+  omega
+
+theorem date_lt_irrefl (a : Date) : ¬ a < a := by rw [Date.lt_iff_agg]; omega
+
+/-- sub-period `k` of a period starting on the first of month `M0` -/
+def subOf (M0 : Int) (res k : Nat) : Date × Date :=
+  (firstOf (M0 + (k * res : Nat)), monthEndOf (M0 + ((k + 1) * res : Nat) - 1))
+
+/-- closed form of the sub-periods of a first-of-month period start from 1970 on -/
+theorem subperiods_firstOf {ps : Date} (hd : ps.d = 1) (h70 : 0 ≤ monthToId ps) (res n : Nat) :
+    subperiods ps res n = (List.range n).map (subOf (monthToId ps) res) := by
+  unfold subperiods
+  apply List.map_congr_left
+  intro k _
+  have c1 : (((k * res : Nat) : Rat)) = (((k * res : Nat) : Int) : Rat) := by push_cast; ring
+  have c2 : ((((k + 1) * res : Nat) : Rat)) = ((((k + 1) * res : Nat) : Int) : Rat) := by push_cast; ring
+  rw [c1, c2, addMonths_firstOf ps _ hd (by omega), addMonths_firstOf ps _ hd (by omega)]
+  unfold subOf
+  congr 1
+  have h := firstOf_pred (monthToId ps + (((k + 1) * res : Nat) : Int) - 1)
+  rw [show monthToId ps + (((k + 1) * res : Nat) : Int) - 1 + 1 = monthToId ps + (((k + 1) * res : Nat) : Int) by omega] at h
+  exact h
+
+theorem subOf_start_le_end (M0 : Int) {res : Nat} (hr : 1 ≤ res) (k : Nat) :
+    (subOf M0 res k).1 ≤ (subOf M0 res k).2 := by
+  rw [date_le_iff_not_lt]
+  unfold subOf
+  simp only
+  have h1 : ((k * res : Nat) : Int) ≤ (((k + 1) * res : Nat) : Int) - 1 := by
+    have : k * res + res = (k + 1) * res := by ring
+    omega
+  rcases Int.lt_or_eq_of_le h1 with h | h
+  · intro hlt
+    have := firstOf_lt (M := M0 + (k * res : Nat)) (N := M0 + (((k + 1) * res : Nat) : Int) - 1) (by omega)
+    have h3 := firstOf_le_monthEndOf (M0 + (((k + 1) * res : Nat) : Int) - 1)
+    exact h3 (Date.lt_trans_agg hlt this)
+  · have : M0 + (((k + 1) * res : Nat) : Int) - 1 = M0 + ((k * res : Nat) : Int) := by omega
+    rw [this]; exact firstOf_le_monthEndOf _
+
+theorem subOf_start_ge (M0 : Int) (res k : Nat) : firstOf M0 ≤ (subOf M0 res k).1 := by
+  unfold subOf
+  simp only
+  rcases Nat.eq_zero_or_pos (k * res) with h | h
+  · rw [h]; simp [date_le_refl]
+  · exact date_le_of_lt (firstOf_lt (by omega))
+
+theorem subOf_end_lt {M0 : Int} {res : Nat} (hr : 1 ≤ res) {j k : Nat} (h : j < k) :
+    (subOf M0 res j).2 < (subOf M0 res k).2 := by
+  unfold subOf
+  simp only
+  apply monthEndOf_lt
+  have : (j + 1) * res < (k + 1) * res := Nat.mul_lt_mul_of_pos_right (by omega) (by omega)
+  omega
+
+
+
+theorem range_filter_lt (m n : Nat) (h : n ≤ m) (q : Nat → Bool) :
+    (List.range m).filter (fun k => decide (k < n) && q k) = (List.range n).filter q := by
+  obtain ⟨d, rfl⟩ : ∃ d, m = n + d := ⟨m - n, by omega⟩
+  rw [List.range_add, List.filter_append]
+  have h1 : (List.range n).filter (fun k => decide (k < n) && q k) = (List.range n).filter q := by
+    apply List.filter_congr
+    intro k hk
+    have : k < n := by simpa using hk
+    simp [this]
+  have h2 : ((List.range d).map (n + ·)).filter (fun k => decide (k < n) && q k) = [] := by
+    rw [List.filter_eq_nil_iff]
+    intro k hk
+    obtain ⟨j, _, rfl⟩ := List.mem_map.mp hk
+    simp
+  rw [h1, h2, List.append_nil]
+
+theorem expectedSubs_eq {c : Cell} {res n : Nat} {L : Int} (hr : 1 ≤ res) (hd : c.ps.d = 1)
+    (h70 : 0 ≤ monthToId c.ps) (hL : L = ((n * res : Nat) : Int)) (hn : 1 ≤ n)
+    (hpe : c.pe = (addMonths c.ps ((L.toNat : Nat) : Rat)).pred) :
+    expectedSubs res c = obsSubs c res n := by
+  have hLn : L.toNat = n * res := by rw [hL]; exact Int.toNat_natCast _
+  have hpe' : c.pe = monthEndOf (monthToId c.ps + ((n * res : Nat) : Int) - 1) := by
+    rw [hpe, hLn]
+    have c1 : (((n * res : Nat) : Rat)) = (((n * res : Nat) : Int) : Rat) := by push_cast; ring
+    rw [c1, addMonths_firstOf c.ps _ hd (by omega)]
+    have h := firstOf_pred (monthToId c.ps + ((n * res : Nat) : Int) - 1)
+    rw [show monthToId c.ps + ((n * res : Nat) : Int) - 1 + 1 = monthToId c.ps + ((n * res : Nat) : Int) by omega] at h
+    exact h
+  have hpos : 1 ≤ n * res := Nat.mul_le_mul hn hr
+  have hmonths : monthsIn c = n * res := by
+    unfold monthsIn
+    rw [hpe', monthToId_monthEndOf]; omega
+  have hlast : c.pe = (subOf (monthToId c.ps) res (n - 1)).2 := by
+    rw [hpe']; unfold subOf; simp only
+    have : n - 1 + 1 = n := by omega
+    rw [this]
+  unfold expectedSubs obsSubs
+  rw [hmonths, subperiods_firstOf hd h70, subperiods_firstOf hd h70, List.filter_map, List.filter_map]
+  congr 1
+  rw [← range_filter_lt (n * res) n (by nlinarith) _]
+  apply List.filter_congr
+  intro k _
+  simp only [Function.comp]
+  congr 1
+  -- end of sub-period k is within the period iff k < n
+  by_cases hk : k < n
+  · have : (subOf (monthToId c.ps) res k).2 ≤ c.pe := by
+      rw [hlast]
+      rcases Nat.lt_or_eq_of_le (by omega : k ≤ n - 1) with h | h
+      · exact date_le_of_lt (subOf_end_lt hr h)
+      · rw [h]; exact date_le_refl _
+    simp [hk, this]
+  · have : ¬ (subOf (monthToId c.ps) res k).2 ≤ c.pe := by
+      rw [date_le_iff_not_lt, not_not, hlast]
+      exact subOf_end_lt hr (by omega)
+    simp [hk, this]
+
+
+end Bermuda.Units
